@@ -41,6 +41,10 @@ type deniableProver struct {
 
 	// Error/success indicators for all participants
 	err []error
+
+	// Set when a clique step failed underneath the prover: the lock-step
+	// with our verifiers is broken from then on.
+	stepErr error
 }
 
 func (dp *deniableProver) run(suite Suite, self int, prv Prover,
@@ -84,6 +88,14 @@ func (dp *deniableProver) run(suite Suite, self int, prv Prover,
 
 	if err := (func(ProverContext) error)(prv)(dp); err != nil {
 		dp.err[self] = err
+		if dp.stepErr != nil {
+			// The failure came from a proof or challenge step (for example
+			// another participant opened a key that does not match its
+			// commitment). Our verifiers are parked half-way through that
+			// step; driving them further would hand them a proof message in
+			// place of the challenge and block for ever.
+			return dp.err
+		}
 	}
 
 	// Send the last prover message.
@@ -240,9 +252,11 @@ func (dp *deniableProver) Put(message any) error {
 func (dp *deniableProver) PubRand(data ...any) error {
 
 	if _, err := dp.proofStep(); err != nil { // finish proof step
+		dp.stepErr = err
 		return err
 	}
 	if err := dp.challengeStep(); err != nil { // run challenge step
+		dp.stepErr = err
 		return err
 	}
 	return dp.suite.Read(dp.pubrand, data...)
